@@ -296,7 +296,8 @@ def _exact_memo(tree, parents, node, table):
                 stores.append((n, parts))
     if not stores:
         return False
-    verdicts = [_memo_verdict(fn, k, v) for _, (k, v) in stores]
+    cls_node = parents.get(fn) if isinstance(parents.get(fn), ast.ClassDef) else None
+    verdicts = [_memo_verdict(fn, k, v, cls_node) for _, (k, v) in stores]
     if any(v == "no" for v in verdicts):
         return False
     is_store = any(n is node for n, _ in stores)
@@ -308,7 +309,23 @@ def _exact_memo(tree, parents, node, table):
     return True
 
 
-def _memo_verdict(fn, key, value):
+def _reads_receiver(fn, call, cls_node):
+    """Does `self.m(K)` / `cls.m(K)` inside fn hand the receiver to m (so that the result may depend on more than K)?"""
+    f = call.func
+    first = fn.args.args[0].arg if fn.args.args else None
+    if not (isinstance(f, ast.Attribute) and isinstance(f.value, ast.Name) and f.value.id == first and first in ("self", "cls")):
+        return False
+    if cls_node is None:
+        return True
+    from ..model import mangle
+    for d in cls_node.body:
+        if isinstance(d, ast.FunctionDef) and d.name in (f.attr, mangle(f.attr, cls_node.name)):
+            decos = {ast.unparse(x).split(".")[-1] for x in d.decorator_list}
+            return "staticmethod" not in decos
+    return True
+
+
+def _memo_verdict(fn, key, value, cls_node=None):
     params = [a.arg for a in fn.args.posonlyargs + fn.args.args + fn.args.kwonlyargs]
     rebound = {n.id for n in ast.walk(fn) if isinstance(n, ast.Name) and isinstance(n.ctx, ast.Store)}
 
@@ -335,6 +352,7 @@ def _memo_verdict(fn, key, value):
         return "exact"
     # (b) value = g(K) with the key being exactly that argument list
     if isinstance(value, ast.Call) and not value.keywords and all(simple(e) for e in key_parts) and \
+            not _reads_receiver(fn, value, cls_node) and \
             [ast.dump(x) for x in value.args] == [ast.dump(x) for x in key_parts] and \
             not any(isinstance(e, ast.Name) and e.id in rebound and e.id not in params for e in key_parts):
         return "exact"
@@ -861,8 +879,9 @@ HISTORY_ENTERED = {}
 
 def _history(ctx, model):
     """One interpreter instance stands for one process: class-level and module-level objects are evaluated once and
-    live on.  A script of constructions and operations is interpreted three times in the same instance; every step
-    must emit the same text each time, and the same text as in a fresh instance (no state survives a call)."""
+    live on.  A script of constructions and operations is interpreted twice in the same instance, and in a second
+    instance backwards and then forwards; every step must emit the same text each time, and the same text as in a
+    fresh instance (no state survives a call)."""
     from ..interp import Interp, Hooks, PyRaise, Obj
     CL, QU, GR, OP, ASR = ("pregex.core.classes", "pregex.core.quantifiers", "pregex.core.groups", "pregex.core.operators",
                            "pregex.core.assertions")
@@ -918,6 +937,11 @@ def _history(ctx, model):
             return NotImplemented
     shared = Interp(model, Log(), fuel=500_000_000)
     rounds = [[text(shared, st) for st in script] for _ in range(2)]
+    # a second process lives through the script backwards, then forwards (a table filled in ascending order of its keys
+    # behaves differently from one filled in descending order when an entry is derived from its neighbours)
+    shared2 = Interp(model, Hooks(), fuel=500_000_000)
+    rounds.append([text(shared2, st) for st in reversed(script)][::-1])
+    rounds.append([text(shared2, st) for st in script])
     HISTORY_ENTERED.clear()
     HISTORY_ENTERED.update(entered)
     fresh = [text(Interp(model, Hooks(), fuel=50_000_000), st) for st in script]
